@@ -14,8 +14,7 @@ use syn::Token;
 pub(crate) fn parse_width(attrs: &Vec<syn::Attribute>, max_variant: u8) -> Result<u8, syn::Error> {
     // minimum width is the log2 of the max_variant
     #[allow(clippy::cast_possible_truncation)]
-    #[allow(clippy::cast_sign_loss)]
-    let min_width: u8 = f32::ceil(f32::log2(f32::from(max_variant + 1))) as u8;
+    let min_width: u8 = (u8::BITS - max_variant.leading_zeros()) as u8;
 
     for attr in attrs {
         if attr.path().is_ident("bits") {
